@@ -136,6 +136,7 @@ def run(ctx, rep):
         seen.add(text)
     _values(ctx, rep, enf)
     _leaves(ctx, rep, enf)
+    _history_independent(ctx, rep)
 
 
 def _values(ctx, rep, enf):
@@ -222,6 +223,44 @@ def _leaves(ctx, rep, enf):
             if ip != '!':
                 rep.fail('leaf:%r' % (v,), 'check %r without a colon parses to %s, not to !' % (v, ip), {'value': v})
             rep.case(key='leaf:%r' % (v,), nontrivial=True)
+
+
+def _history_independent(ctx, rep):
+    """What a rule value parses to does not depend on what the process parsed before: a list rule and the TEXT that spells
+    the same list (`[]` / '[]', ['@'] / "['@']" ...) are different rules, in either order (seeded change C02-A7: a parse
+    cache keyed on str(rule)). Reference: each value parsed alone in a freshly started interpreter."""
+    import json
+    import os
+    import subprocess
+    import sys
+    lists = [[], [[]], ['@'], [[], []], [['role:admin'], ['role:member']], [['role:r0', 'role:r1']], ['role:r0'], [['!']],
+             [[], ['role:r1']], ['@', '!'], [['@'], []]]
+    vals = []
+    for L in lists:
+        vals += [L, str(L), json.dumps(L)]
+    code = ("import sys, json; sys.path.insert(0, %r); from opverif import impl; "
+            "print(json.dumps([impl.parse_str(v) for v in json.loads(sys.argv[1])]))" % os.path.dirname(os.path.dirname(
+                os.path.dirname(os.path.abspath(__file__)))))
+    fresh = {}
+    for v in vals:       # one interpreter per value: no history at all
+        p = subprocess.run([sys.executable, '-c', code, json.dumps([v])], stdout=subprocess.PIPE, stderr=subprocess.PIPE,
+                           env=os.environ)
+        if p.returncode != 0:
+            raise RuntimeError('fresh-interpreter reference failed: ' + p.stderr.decode()[-300:])
+        fresh[repr(v)] = json.loads(p.stdout.decode())[0]
+    n = 0
+    for i, L in enumerate(lists):
+        order = [L, str(L), json.dumps(L), L, str(L)] if i % 2 == 0 else [str(L), json.dumps(L), L, str(L), L]
+        for v in order:
+            got = impl.parse_str(v)
+            if got != fresh[repr(v)]:
+                rep.fail('history:%r' % (v,), 'rule value %r parses to %s after the process has parsed %r; alone in a fresh '
+                         'interpreter it parses to %s' % (v, got, [x for x in order if x is not v][:2], fresh[repr(v)]),
+                         {'value': v, 'order': order})
+            n += 1
+        rep.case(key='history:%r' % (L,), nontrivial=True, n=len(order))
+    rep.rules.append('%d parses of list rules and of the texts that spell the same lists (repr and JSON spelling), in both '
+                     'orders, each compared with the same value parsed alone in a fresh interpreter' % n)
 
 
 def replay(ctx, rep, data):
